@@ -1209,3 +1209,10 @@ fn validate_base64(var: &str, name: &str) -> Result<(), Error> {
 
 
 
+
+/// verification hook: runs the pest grammar of this module from `rule` on `text`; returns the number of
+/// bytes of `text` covered by the produced pairs, or `None` when the grammar rejects
+#[cfg(feature = "verif")]
+pub fn verif_pest_parse(rule: Rule, text: &str) -> Option<usize> {
+    PestParser::parse(rule, text).ok().map(|pairs| pairs.as_str().len())
+}
